@@ -24,7 +24,7 @@ impl<const N: usize> Exec<N> {
         if self.view.live().len() >= 2 {
             let target = match s {
                 Step::Add { i, .. } | Step::Bind { i, .. } | Step::Put { i, .. } | Step::PutRaw { i, .. } | Step::Data { i, .. } | Step::NextId { i, .. }
-                | Step::Drain { i, .. } | Step::Script { i, .. } | Step::Script2 { i, .. } | Step::Save { i, .. } | Step::Oob { i, .. } | Step::Storm { i, .. } | Step::Repeat { i, .. } => *i + 1,
+                | Step::Drain { i, .. } | Step::Script { i, .. } | Step::Script2 { i, .. } | Step::Save { i, .. } | Step::Oob { i, .. } | Step::Storm { i, .. } | Step::Repeat { i, .. } | Step::ReaddStorm { i, .. } => *i + 1,
                 Step::Clone { src, .. } | Step::Slice { src, .. } => *src + 1,
                 Step::Merge { dst, .. } => *dst + 1,
                 _ => 0,
@@ -309,6 +309,84 @@ impl<const N: usize> Exec<N> {
                 self.hash_step(s, "");
                 Ok(Applied::Done)
             }
+            Step::ReaddStorm { i, v, a, reader, w, b, t1, t2, times } => {
+                let (Some(v), Some(reader), Some(w), Some(t1), Some(t2)) = (self.id(*v), self.id(*reader), self.id(*w), self.id(*t1), self.id(*t2)) else {
+                    return Ok(Applied::Skipped);
+                };
+                if !self.targetable(*i) || !self.view.followers(*i).is_empty() || *times < 3 {
+                    return Ok(Applied::Skipped);
+                }
+                {
+                    let inst = self.view.insts[*i].as_ref().unwrap();
+                    let m = &inst.m;
+                    if inst.poisoned || m.adoptive || !m.is_present(v) || !m.is_present(reader) {
+                        return Ok(Applied::Skipped);
+                    }
+                    // the read must collect v (and not w, t1, t2), v must have the edge, the storm must be in contract
+                    let mut mm = m.clone();
+                    if mm.kid(v, a).is_none() || !mm.present[&reader].unread {
+                        return Ok(Applied::Skipped);
+                    }
+                    let out = mm.data(reader);
+                    if !out.removed.contains(&v) || [w, t1, t2].iter().any(|x| !mm.is_present(*x)) || w == t1 || w == t2 || t1 == t2 {
+                        return Ok(Applied::Skipped);
+                    }
+                    mm.add(v);
+                    if !mm.can_bind(w, t1, b) {
+                        return Ok(Applied::Skipped);
+                    }
+                    mm.bind(w, t1, b);
+                    if !mm.can_bind(w, t2, b) {
+                        return Ok(Applied::Skipped);
+                    }
+                }
+                self.view.see_label(a);
+                self.view.see_label(b);
+                let (la, lb) = (a.to_label(), b.to_label());
+                // no sweep from the first lookup to the last: the whole passage runs at observation rate "never"
+                let keep = self.view.cfg.sweep_every;
+                self.view.cfg.sweep_every = usize::MAX;
+                let g = self.gs[*i].as_ref().unwrap();
+                let before = guarded(|| g.kid(v, la)).ok().flatten();
+                let r = (|| -> Result<(), Failure> {
+                    self.op_with_followers(*i, &Op::Data(reader))?;
+                    self.op_with_followers(*i, &Op::Add(v))?;
+                    self.op_with_followers(*i, &Op::Bind(w, t1, b.clone()))?;
+                    self.op_with_followers(*i, &Op::Bind(w, t2, b.clone()))?;
+                    Ok(())
+                })();
+                self.view.cfg.sweep_every = keep;
+                r?;
+                let g = self.gs[*i].as_mut().unwrap();
+                let r = guarded(|| {
+                    for k in 2..*times {
+                        g.bind(w, if k % 2 == 0 { t1 } else { t2 }, lb);
+                    }
+                    g.kid(v, la)
+                });
+                self.stats.bump("probe.readd_storm");
+                match r {
+                    Err(c) => return fail("panic.in-contract-call", clauses::PANIC_GC, format!("a storm of {times} re-binds panicked: {c:?}")),
+                    Ok(after) => {
+                        if after.is_some() {
+                            return fail(
+                                "kid.differs-from-last-bind",
+                                &["C03", "C04"],
+                                format!("kid(ν{v}, {a:?}) was {before:?}; ν{v} was collected and added again; after {times} edge changes elsewhere kid(ν{v}, {a:?}) is {after:?} although nothing was bound since ν{v} was re-created"),
+                            );
+                        }
+                    }
+                }
+                // bring the model in line with the last raw bind and judge the state in full
+                let last = if (*times - 1) % 2 == 0 { t1 } else { t2 };
+                let keep = self.view.cfg.sweep_every;
+                self.view.cfg.sweep_every = 1;
+                let r = self.op_with_followers(*i, &Op::Bind(w, last, b.clone()));
+                self.view.cfg.sweep_every = keep;
+                r?;
+                self.hash_step(s, "");
+                Ok(Applied::Done)
+            }
             Step::SliceStorm { src, v, times } => {
                 let Some(v) = self.id(*v) else { return Ok(Applied::Skipped) };
                 if !self.usable(*src) || self.view.insts[*src].as_ref().unwrap().poisoned {
@@ -339,7 +417,7 @@ impl<const N: usize> Exec<N> {
                     return Ok(Applied::Skipped);
                 }
                 let (si, di) = (self.view.insts[*src].as_ref().unwrap(), self.view.insts[*dst].as_ref().unwrap());
-                if si.poisoned || di.poisoned || si.m.cap != di.m.cap {
+                if si.poisoned || di.poisoned || si.m.adoptive || di.m.adoptive {
                     return Ok(Applied::Skipped);
                 }
                 let mut d = self.gs[*dst].take().unwrap();
@@ -429,7 +507,7 @@ impl<const N: usize> Exec<N> {
             Step::Slice { src, v, pred, seeds, keep } => self.do_slice(*src, *v, *pred, seeds, *keep, s),
             Step::Merge { dst, src, left, right } => self.do_merge(*dst, *src, *left, *right, s),
             Step::Script { i, cmds, style, var, name } => self.do_script(*i, cmds, *style, *var, name, s),
-            Step::Script2 { i, p, l1, l2, a, b } => self.do_script2(*i, *p, l1, l2, a, b, s),
+            Step::Script2 { i, p, l1, l2, a, b, twice } => self.do_script2(*i, *p, l1, l2, a, b, *twice, s),
             Step::Damage { path, kind } => self.do_damage(*path, *kind),
             Step::Oob { i, call } => self.do_oob(*i, call),
         }
